@@ -557,9 +557,16 @@ class C16(Prop):
     def _array_vs_scalar(fn, point, other, what):
         """fn(*arrays) == elementwise fn(*scalars): every argument becomes the array [point_i, other_i, point_i]; the
         results must have that shape and, element by element, the bits of the scalar calls (only + - * / on doubles)"""
-        arrs = [np.asarray([p, o, p]) for p, o in zip(point, other)]
+        arrs = [np.asarray([p, o, p], dtype=float) for p, o in zip(point, other)]
+        before = [a.copy() for a in arrs]
         ra = fn(*arrs)
         ra = ra if isinstance(ra, tuple) else (ra,)
+        # the caller's arrays are arguments, not scratch space: a conversion that is "exact for the value returned" but leaves
+        # the record changed makes the next conversion of the same record wrong (seeded change C16-m6)
+        for k, (a, b) in enumerate(zip(arrs, before)):
+            if not np.array_equal(a, b, equal_nan=True):
+                return (f"{what}: the call changed its argument {k} in place: {b.tolist()!r} -> {a.tolist()!r}; a second conversion of "
+                        f"the same record then gives a different result", "array-scalar")
         for j, (pt, lab) in enumerate(((point, "first"), (other, "second"), (point, "third"))):
             rs = fn(*pt)
             rs = rs if isinstance(rs, tuple) else (rs,)
